@@ -18,7 +18,7 @@ CHECKS = {
     "C02": ("sched", "model_checking", "stateless model checking of the implementation: preemption-bounded DFS under a controlled scheduler",
             "Every schedule within the bound of reader vs overwrite/Del/Clear/eviction/expiry scenarios on the real cache (incl. hash collisions); plus an explicit-state search over histories with every applier lag in which every key is read in every state; oracle: no Get starting after OnExit(v) returns v.", "§4 C02", SCHED_NOTE),
     "C03": ("sched", "model_checking", "explicit-state BFS over operation histories with every applier lag on the real cache (sequential driver: each event runs one thread exclusively; canonical white-box state key)",
-            "Cost accounting invariants are checked in every reachable state of all bounded histories over adversarial cost alphabets (0 via Config.Cost, 1, 2, MaxCost, MaxCost+1), every rotation of the sampling map order.", "§4 C03", SCHED_NOTE),
+            "Cost accounting invariants are checked in every reachable state of all bounded histories over adversarial cost alphabets (0 via Config.Cost, 1, 2, MaxCost, MaxCost+1), every rotation of the sampling map order; a specification with entries of accounted cost exactly 0; resident-but-unaccounted and accounted-but-absent keys are judged at drained states.", "§4 C03", SCHED_NOTE),
     "C04": ("sched", "model_checking", "stateless model checking of the implementation: preemption-bounded DFS under a controlled scheduler (racy pairs) + explicit-state search over histories with every applier lag",
             "Exactly-once OnExit accounting checked on every explored execution ending in Close; in the history search additionally the state invariant 'accepted and not yet released == still held' in every reachable state.", "§4 C04", SCHED_NOTE),
     "C05": ("sched", "model_checking", "explicit-state BFS over operation histories with every applier lag on the real cache (sequential driver: each event runs one thread exclusively; canonical white-box state key) + preemption-bounded DFS with a second thread",
@@ -30,9 +30,9 @@ CHECKS = {
     "C08": ("sched", "model_checking", "stateless model checking of the implementation: preemption-bounded DFS under a controlled scheduler, run twice - normal build (panic/deadlock/livelock oracle) and -race build with scheduler hand-offs invisible to the race detector",
             "Every unordered pair of the 12 API operation kinds, on conflicting keys with resident and pending entries: every schedule within the bound is executed; the race detector judges every explored schedule of the race build.", "§4 C08", SCHED_NOTE + " The Go race detector (ThreadSanitizer happens-before) is trusted."),
     "C09": ("sched", "model_checking", "exhaustive enumeration of (population, costs, frequencies, incoming item, sampling-map order) configurations, each built and decided on the real cache under the sequential driver",
-            "Every configuration up to 4 (thorough 5) residents is built through the public API; the deciding applier step is judged against the TinyLFU / sampled-LFU discipline using white-box estimates read immediately before it, for every permutation of the sampling map order.", "§4 C09", SCHED_NOTE),
+            "Every configuration up to 4 (thorough 5) residents, and populations of 6 and 7 residents (larger than the eviction sample), is built through the public API; the deciding applier step is judged against the TinyLFU / sampled-LFU discipline using white-box estimates read immediately before it and the candidate sample reconstructed from the logged map ranges, for every permutation / rotation of the sampling map order.", "§4 C09", SCHED_NOTE),
     "C10": ("seq", "model_checking", "explicit-state BFS over operation histories on the real z.Tree (exact page-bytes state key) against a map reference model",
-            "Every operation sequence over adversarial key alphabets up to the depth bound, from every reachable state, at the smallest page sizes (splits after 4 keys) and up; long fill/delete histories at larger page sizes.", "§4 C10", SEQ_NOTE),
+            "Every operation sequence over adversarial key alphabets up to the depth bound, from every reachable state, at the smallest page sizes (splits after 4 keys) and up; long fill/delete histories at larger page sizes; 120 (thorough 400) shuffled start states; when an observation is seen to change the tree, every key becomes the last read before and the first read after every operation.", "§4 C10", SEQ_NOTE),
     "C11": ("seq", "model_checking", "explicit-state BFS over operation histories on the real z.Buffer against a byte-slice reference model",
             "All operation histories up to the depth bound from every reachable state, for every buffer configuration, plus exhaustive sort families around the 1024-slice chunking.", "§4 C11", SEQ_NOTE),
     "C12": ("sched", "model_checking", "stateless model checking of the implementation: DFS over all schedules (preemption bound 8 quick / unbounded thorough) with every atomic operation on the packed index and the mutex as schedule points; normal + race-detector builds; plus all sequential histories to a depth bound",
@@ -40,19 +40,19 @@ CHECKS = {
     "C13": ("sched", "model_checking", "explicit-state BFS over operation histories with every applier lag on the real cache (sequential driver: each event runs one thread exclusively; canonical white-box state key) + preemption-bounded DFS of two writers",
             "At every quiescent state of every bounded history: accounted keys == stored keys, IterValues == unexpired entries (with stop semantics), empty => full capacity.", "§4 C13", SCHED_NOTE),
     "C14": ("sched", "model_checking", "preemption-bounded DFS of sweep vs client re-writes (sweep's lock acquisitions are schedule points) + explicit-state BFS over operation histories with every applier lag on the real cache (sequential driver: each event runs one thread exclusively; canonical white-box state key) for applier stalls",
-            "Safety and exactly-once of expiry processing on every explored schedule; bounded liveness on every bounded history. Two open known findings (check-then-act window in cleanup).", "§4 C14", SCHED_NOTE),
+            "Safety and exactly-once of expiry processing on every explored schedule; bounded liveness on every bounded history. The defects it found (F4, F5, F6, F8) are repaired by fix: commits and recorded as fixed entries.", "§4 C14", SCHED_NOTE),
     "C15": ("sched", "model_checking", "explicit-state BFS over histories of two client threads with every applier lag on the real cache (sequential driver), Close / Clear as ordinary repeatable events, probes after each",
             "Every combination of resident entries, buffered new items / overwrites / tombstones, pending Wait markers (a second client blocked in Wait) and TTL entries precedes the Close/Clear; inertness / freshness is checked by probes and white-box state, thread termination from the scheduler's thread table.", "§4 C15", SCHED_NOTE),
     "C16": ("seq", "model_checking", "explicit-state BFS over histories with a Reopen event enabled in every state, on real file-backed trees; differential oracle before/after reopen",
-            "Every clean-close point of every bounded history (including after DeleteBelow recycled pages) is closed, reopened and compared; the search continues from the reopened tree under the C10 oracle.", "§4 C16", SEQ_NOTE),
+            "Every clean-close point of every bounded history (including after DeleteBelow recycled pages) is closed, reopened and compared; the search continues from the reopened tree under the C10 oracle, and a reopened tree must take recycled pages before it moves the allocation frontier.", "§4 C16", SEQ_NOTE),
     "C17": ("sched", "model_checking", "explicit-state BFS over operation histories with every applier lag on the real cache (sequential driver: each event runs one thread exclusively; canonical white-box state key) + preemption-bounded DFS",
-            "Metric conservation laws at every drained state of every bounded history with Metrics on.", "§4 C17", SCHED_NOTE),
+            "Metric conservation laws at every drained state of every bounded history with Metrics on; one DFS family makes every striped counter operation a schedule point. One open known finding (GetsKept counts Gets issued before the last Clear).", "§4 C17", SCHED_NOTE),
     "C18": ("seq", "model_checking", "explicit-state search to fixpoint over the real cmSketch / tinyLFU (counters saturate, so the reachable space is finite) + complete byte-space enumeration of the counter row",
-            "All reachable sketch states for small tables, every counter byte value, every table size formula input up to 1025 and around powers of two.", "§4 C18", SEQ_NOTE),
+            "All reachable sketch states for small tables (events: Increment, Push batches, forced aging reset, clear), every counter byte value, every table size formula input up to 1025 and around powers of two up to 2^62; after an aging reset every estimate must equal what the halved counters say.", "§4 C18", SEQ_NOTE),
     "C19": ("seq", "model_checking", "explicit-state BFS over Add/AddIfNotHas/Clear/JSON-round-trip sequences on the real Bloom filter against a set reference model",
-            "All event sequences to depth 5 (7 thorough) over 48 parameterisations and 16 extreme hashes.", "§4 C19", SEQ_NOTE),
+            "All event sequences to depth 5 (7 thorough) over 88 parameterisations (entries from 1 to 5000, 1-7 locations, rates from 0.0001 to 0.99) and 16 extreme hashes; no assumption on the bitset layout.", "§4 C19", SEQ_NOTE),
     "C20": ("seq", "exploration", "exhaustive input enumeration (every length x first-match position x tail-memory pattern)",
-            "The kernel only compares keys with k, so {<k, >=k} patterns are a complete abstraction of inputs; all of them up to length 512 (1024 thorough) are run against the reference, including every pattern of the memory past the slice.", "§4 C20", SEQ_NOTE),
+            "The kernel only compares keys with k, so {<k, >=k} patterns are a complete abstraction of inputs; all of them up to length 512 (1024 thorough) are run against the reference, including every pattern of the memory past the slice; a second sweep places the slice at each of the 8 word offsets within a 64-byte line, with capacity equal to and larger than its length.", "§4 C20", SEQ_NOTE),
 }
 
 PENDING = {}
